@@ -98,6 +98,15 @@ def receiver():
     return run
 
 
+def splitscope():
+    def run(tier: str, seed: int, prop: str) -> CompResult:
+        import t1_splitscope
+
+        return t1_splitscope.run(tier, seed)
+
+    return run
+
+
 def restart_default():
     def run(tier: str, seed: int, prop: str) -> CompResult:
         import t1_options
@@ -120,6 +129,12 @@ PROPS: dict[str, dict[str, Any]] = {
         "assumptions": ["a stand-off is a simulated state in which the controller waits for an event and no worker step, command delivery or receiver step is enabled",
                         "real-time fairness (a test that never returns), the 2 s queue timeout and OS scheduling are outside the model: the simulation's random scheduler gives every enabled step a positive probability and a run must end within a step budget",
                         "whole-execution absence of stand-offs is validated by the simulation, not proved; the theorems cover the two mechanisms (two queued tests or shutdown; tests_finished => everybody shut down)"],
+    },
+    "C06": {
+        "components": [splitscope(), sched(["loadscope", "loadfile", "loadgroup"], quick=200, thorough=3000, crash=0.06),
+                       system(["plain", "crash"], 300, 6000, modes=["loadscope", "loadfile", "loadgroup"])],
+        "assumptions": ["well-formedness of ids: paths and last segments without ':', group names without '@' and ']' (each excluded point is a known finding with a proved witness)",
+                        "that a unit is dispatched whole to one worker and run contiguously is validated by the scheduler correspondence and the simulation monitor, not proved"],
     },
     "C08": {
         "components": [sched(["each"], quick=500, thorough=8000, crash=0.12), system(["each"], 400, 8000)],
